@@ -182,7 +182,7 @@ PROPERTIES["C20"] = {
             "expectation); distinct = (program, grid type)",
     "assumptions": ["operator kinds limited to the seven listed (+ combined snapshot in thorough)"],
     "bounds": {"quick": {"programs": "7 + 7^2 + 7^3 + 7^4 = 2800, 3 grids"},
-               "thorough": {"programs": "8 + 8^2 + 8^3 + 8^4 = 4680, 6 grids"}},
+               "thorough": {"programs": "8 + 8^2 + 8^3 + 8^4 + 8^5 = 37448, 6 grids"}},
     "deadline": {"quick": 600, "thorough": 1200},
 }
 
@@ -289,7 +289,7 @@ PROPERTIES["C08"] = {
                     "a caller-side use of something the library handed out (e.g. a dangling reference returned by an "
                     "iterator) is keyed by the harness stage instead of a library line"],
     "bounds": {"quick": {"stride": "flow 96, basin 64, others 8"}, "thorough": {"stride": "flow 6, basin 4, hist 2, others 1"}},
-    "deadline": {"quick": 900, "thorough": 1200},
+    "deadline": {"quick": 900, "thorough": 2400},
 }
 
 
@@ -329,7 +329,7 @@ PROPERTIES["C11"] = {
                          "operation_sequences": "length <= 3 at bound 0, length <= 2 at bound 1 (+ length 3 over {r3,p,z3}), 1-4 workers"},
                "thorough": {"workers": "2-3", "preemptions": "3 (single pattern, un-cached), unbounded (cached), 2 elsewhere",
                             "operation_sequences": "length <= 4 at bound 0, length <= 3 at bound 1, length <= 2 at bound 2, 1-4 workers"}},
-    "deadline": {"quick": 600, "thorough": 1200},
+    "deadline": {"quick": 600, "thorough": 2400},
 }
 
 
@@ -360,5 +360,5 @@ PROPERTIES["C10"] = {
                     "spin-loop rule and bounds as in C11"],
     "bounds": {"quick": {"workers": "2 explored (bound 1), 3/4/8 first 64 schedules", "histories": "<= 2 calls"},
                "thorough": {"workers": "2-3 explored (bound 1-2), 3/4/5/8/16 first 64 schedules", "histories": "<= 4 calls (capped at 300000 executions)"}},
-    "deadline": {"quick": 900, "thorough": 1200},
+    "deadline": {"quick": 900, "thorough": 2400},
 }
